@@ -1,1 +1,20 @@
-"""C15 contracts."""
+"""C15 - the two local facts of reference expansion that are within the verifier's reach: a spliced WHERE clause is grouped
+exactly when it contains an OR bar, and a reference to a saved query whose page does not exist is reported (None), never
+ignored.  The meaning of an expanded query is decided by the bounded tier (real index)."""
+from engine.spec import T, contract, fs_exists, fs_unchanged
+from contracts import c16  # noqa: F401  (assumed contract of prepend_zdir: result is page_path(zdir, path))
+from contracts.c16 import page_path  # noqa: F401
+
+PATH = T.rec("Path", {"s": T.str()})
+Q = "zorg.service.swog._saved_queries:"
+
+contract(
+    Q + "_group_if_needed", props=["C15"], args={"where_filter": T.str()}, returns=T.str(),
+    ensures={
+        # only what the statement needs: the clause is spliced unchanged or inside one pair of parentheses, and a clause with
+        # an OR bar that is not already enclosed is enclosed.  (Whether conjunctions are wrapped too, or an already enclosed
+        # clause is wrapped again, does not matter for the meaning and is left open.)
+        "spliced-bare-or-in-one-pair-of-parentheses": "result == where_filter or result == '(' + where_filter + ')'",
+        "alternatives-are-grouped": "implies(' | ' in where_filter and not (where_filter.startswith('(') and where_filter.endswith(')')), result == '(' + where_filter + ')')",
+    },
+)
